@@ -91,6 +91,15 @@ PHASE = [0.0, -0.0, 25.0, 50.0, 75.0, 100.0]
 PHASE_EDGE = [nextafter(0.0, False), nextafter(100.0), nextafter(100.0, False), 5e-324, -1.0, 101.0, 1e9, NAN, INF, -INF, 49.999, 50.001]
 
 
+def around(rng, t):
+    """t itself, its neighbours, and points at relative distances 1e-9 .. 1e-2 on both sides: a threshold that moves by
+    more than ~1e-9 relative lands on the other side of one of them"""
+    c = rng.below(4)
+    if c == 0:
+        return rng.choice([t, nextafter(t), nextafter(t, False)])
+    return t * (1 + rng.choice([1, -1]) * rng.choice([1e-9, 1e-8, 1e-7, 1e-6, 3e-6, 1e-5, 3e-5, 1e-4, 3e-4, 1e-3, 1e-2]))
+
+
 def gen_bands(rng):
     """(pb, sb, class): inside the documented ranges, at and just beyond each threshold, percent style."""
     c = rng.below(12)
@@ -101,15 +110,12 @@ def gen_bands(rng):
     if c == 4:       # transition bandwidth thresholds .002/tol and .5*tol
         pb = rng.uniform(.6, .99)
         t = rng.choice([.002 / TOL, .5 * TOL])
-        d = rng.choice([t, nextafter(t), nextafter(t, False), t * (1 + 1e-7), t * (1 - 1e-7), t + 1e-9, t - 1e-9])
-        return pb, pb + d, "tbw-edge"
+        return pb, pb + around(rng, t), "tbw-edge"
     if c == 5:       # passband threshold .5/tol
-        t = .5 / TOL
-        pb = rng.choice([t, nextafter(t), nextafter(t, False), .5, .49, .4999999])
+        pb = rng.choice([around(rng, .5 / TOL), .5, .49])
         return pb, rng.choice([1.0, pb + .3]), "pb-edge"
     if c == 6:       # stopband threshold 1.5*tol
-        t = 1.5 * TOL
-        sb = rng.choice([t, nextafter(t), nextafter(t, False), 1.5, 1.51, 1.5000149])
+        sb = rng.choice([around(rng, 1.5 * TOL), 1.5, 1.51])
         return sb - rng.choice([.3, .45, .5]), sb, "sb-edge"
     if c == 7:       # percent style (backwards compatibility rescaling) and the 2.0 threshold
         pb = rng.choice([91.3, 95.0, 60.0, 2.0, nextafter(2.0), 50.0, 49.0, 150.0])
@@ -118,7 +124,7 @@ def gen_bands(rng):
     if c == 8:       # imaging condition (only for up-sampling)
         pb = rng.uniform(.6, .99)
         m = 1 - pb / TOL
-        sb = 1 + rng.choice([m, nextafter(m), nextafter(m, False), m * 1.001, m * .999, 2 * m])
+        sb = 1 + rng.choice([around(rng, m), 2 * m])
         return pb, sb, "imaging"
     if c == 9:
         return rng.choice([NAN, INF, -INF, 0.0, -1.0, .9]), rng.choice([NAN, INF, -INF, 0.0, 1.0, -1.0]), "non-finite"
